@@ -71,6 +71,20 @@ func vhRef(maxlen int) *Ref {
 	return &Ref{address: vhStr(maxlen), path: vhStr(maxlen)}
 }
 
+// vhValidRef returns nil or one of a few references as the API produces them
+// (NewRef-normalised address and path): the value space of an ActorRef-typed
+// message field.
+func vhValidRef() vivid.ActorRef {
+	cands := []string{"", "localhost/", "localhost/user/a", "127.0.0.1:8080/user/a/b", "node-1:9000/@remoting"}
+	k := vrtChoose(len(cands))
+	if k == 0 {
+		return nil
+	}
+	r, err := ParseRef(cands[k])
+	vrtAssert(err == nil, "valid-ref-corpus")
+	return r
+}
+
 func vhRefIface(r *Ref) vivid.ActorRef {
 	if r == nil {
 		return nil
@@ -123,7 +137,7 @@ func VH_C12_envelope() {
 		msg = &vivid.OnLaunch{}
 		check = func(got vivid.Message) { _, ok := got.(*vivid.OnLaunch); vrtAssert(ok, "roundtrip-equal") }
 	case "OnKill":
-		m := &vivid.OnKill{Killer: vhRefIface(vhRef(maxlen)), Reason: vhStr(maxlen), Poison: vrtBool()}
+		m := &vivid.OnKill{Killer: vhValidRef(), Reason: vhStr(maxlen), Poison: vrtBool()}
 		msg = m
 		check = func(got vivid.Message) {
 			g, ok := got.(*vivid.OnKill)
@@ -134,7 +148,7 @@ func VH_C12_envelope() {
 			}
 		}
 	case "OnKilled":
-		m := &vivid.OnKilled{Ref: vhRefIface(vhRef(maxlen))}
+		m := &vivid.OnKilled{Ref: vhValidRef()}
 		msg = m
 		check = func(got vivid.Message) {
 			g, ok := got.(*vivid.OnKilled)
